@@ -101,7 +101,8 @@ def struct_layout(body, structs):
 
 
 class Leaf:
-    def __init__(self, pc, ret, store, entry, calls, trace, pc_raw=None, offs=None):
+    def __init__(self, pc, ret, store, entry, calls, trace, pc_raw=None, offs=None, env=None):
+        self.env = env or {}
         self.offs = offs or {}
         self.pc_raw = pc_raw if pc_raw is not None else pc
         self.pc = pc          # list of conditions (domain objects)
@@ -166,7 +167,7 @@ class Interp:
         st = st or State()
         leaves = []
         for (s, r) in self._run_fn(fn, args, st, 0):
-            leaves.append(Leaf(s.pc, r, s.store, dict(self.entry_syms), s.calls, s.trace, s.pc_raw, s.offs))
+            leaves.append(Leaf(s.pc, r, s.store, dict(self.entry_syms), s.calls, s.trace, s.pc_raw, s.offs, getattr(s, 'top_env', None)))
         return leaves
 
     # ---- function execution: generator of (state, retval)
@@ -313,6 +314,8 @@ class Interp:
                         raise Unsupported('path budget exceeded in %s' % fn.name)
                 break
         for s1, r in out:
+            if depth == 0:
+                s1.top_env = s1.env
             s1.env = dict(saved)
         return out
 
